@@ -181,9 +181,9 @@ STRATEGY_TAILS = [
 def c03(res: Result):
     q = res.tier == Q
     rng = random.Random(res.seed + 3)
-    ops = ["exp", "bfs", "dfs", "min", "aseeds", "skiprem", "skipmin", "block"]
+    ops = ["exp", "bfs", "dfs", "min", "aseeds", "skiprem", "skipmin", "block", "scc"]
     recs = run_mc(res, "min", ops, 2, [0, 2, 3], [1000], ["Inv_WF", "Inv_MinExact", "Inv_PartialFaithful", "Inv_ASeedsSound"], 1)
-    recs = [r for r in recs if not any(h[0] == "block" for h in r["hist"])]      # (block histories are run from the random workload)
+    recs = [r for r in recs if not any(h[0] in ("block", "scc") for h in r["hist"])]      # (block / scc histories are run from the random workload)
     tasks = []
     sample = rng.sample(recs, min(len(recs), N(q, 1200, 12000)))
     for i, r in enumerate(sample):
@@ -230,7 +230,9 @@ def c14(res: Result):
     ops = ["exp", "bfs", "skipmin", "skiprem", "min", "cand", "seeds", "sets", "reclaim"]
     recs = run_mc(res, "cache", ops, 2, [2], [1000], ["Inv_WF", "Inv_CacheFresh", "Inv_PartialFaithful"], 2)
     # block expansion (source shortcut, clean-block verdicts for every allowed oracle answer) followed by queries
-    run_mc(res, "block", ["block", "seeds", "cand", "sets"], 3, [2], [1000], ["Inv_WF", "Inv_CacheFresh", "Inv_PartialFaithful", "Inv_ASeedsSound", "Inv_Seeds"], None)
+    run_mc(res, "block", ["block", "scc", "seeds", "cand", "sets"], 3, [2], [1000], ["Inv_WF", "Inv_CacheFresh", "Inv_PartialFaithful", "Inv_ASeedsSound", "Inv_Seeds"], None)
+    if not q:
+        run_mc(res, "scc3", ["exp", "scc", "seeds", "skipmin"], 2, [], [1000], ["Inv_WF", "Inv_CacheFresh", "Inv_PartialFaithful", "Inv_Seeds"], None, netmode="file")
     recs = [r for r in recs if any(h[0] in ("cand", "seeds", "sets") for h in r["hist"][:-1])]
     if not q:
         r3 = run_mc(res, "cache3", ["exp", "skipmin", "skiprem", "seeds", "sets", "reclaim"], 2, [], [1000],
@@ -286,7 +288,7 @@ COMPLETE_DEFAULT = [[{"op": "build"}],
 def c01(res: Result):
     q = res.tier == Q
     rng = random.Random(res.seed + 1)
-    recs = run_mc(res, "seeds", ["bfs", "dfs", "aseeds", "block", "seeds"], 3 if q else 4, [], [1000],
+    recs = run_mc(res, "seeds", ["bfs", "dfs", "aseeds", "block", "scc", "seeds"], 3 if q else 4, [], [1000],
                   ["Inv_WF", "Inv_Seeds", "Inv_CacheFresh", "Inv_ASeedsSound"], None)
     tasks = []
     nets2 = list(bn.all_networks(2))
@@ -1266,20 +1268,44 @@ def run(pid: str, tier: str, seed: int) -> int:
 
 
 def replay(pid: str, path: str) -> int:
-    """re-execute the recorded history of a violation against the current code and re-validate it"""
+    """
+    Replay of a violation.  SD-engine traces: the recorded call history is re-executed against the current code and
+    re-validated.  Other engines (pure / control / twin / depth-action / models): the recorded events are validated again
+    by TLC (the artefact carries inputs and outputs of the failing call; verdict.json names the clause).
+    """
+    if "#model:" in path:
+        print(f"model-level violation: see the TLC counterexample in {path.split('#')[0]}")
+        return 1
     tr = json.load(open(os.path.join(path, "trace.json")))
     verdict = json.load(open(os.path.join(path, "verdict.json")))
-    ops = [{k: v for k, v in e.items() if k not in ("post", "ret", "out", "raised", "exc", "xl", "mts", "orc", "solver_calls")}
-           for e in tr["events"][1:]]
+    engine = verdict.get("engine", "sd")
     wd = os.path.join(sdcheck.WORK, pid, "replay")
     shutil.rmtree(wd, ignore_errors=True)
     os.makedirs(wd)
-    # truth tables are stored in code order = harness order for generated names
-    task = {"tid": tr["tid"], "tt": tr["net"]["f"], "ops": ops, "cfg": tr["cfg"], "names": tr["names"]}
     tf = os.path.join(wd, "traces.ndjson")
-    gen.record_many([task], tf, procs=1)
-    invs = sorted({f["invariant"] for f in verdict["failing"]})
-    out = tlc.validate_traces(tf, "SDTrace", ["Inv_" + i if not i.startswith("Inv_") else i for i in invs], wd, shards=1)
+    if engine == "sd":
+        ops = [{k: v for k, v in e.items() if k not in ("post", "ret", "out", "raised", "exc", "xl", "mts", "orc", "solver_calls", "loops", "work", "other", "ctl")}
+               for e in tr["events"][1:]]
+        task = {"tid": tr["tid"], "tt": tr["net"]["f"], "ops": ops, "cfg": tr["cfg"], "names": tr["names"]}
+        gen.record_many([task], tf, procs=1)
+        invs = sorted({f["invariant"] for f in verdict["failing"]})
+        module, invs = "SDTrace", ["Inv_" + i if not i.startswith("Inv_") else i for i in invs]
+    else:
+        with open(tf, "w") as f:
+            f.write(json.dumps(tr) + "\n")
+        module = {"pure": "PureTrace", "pure-models": "PureTrace", "control": "ControlTrace", "twin": "Twin", "depth-action": "DepthTrace"}.get(engine)
+        if module is None:
+            print(f"no replay for engine {engine}; see {path}/verdict.json")
+            return 1
+        names = set()
+        for fl in verdict["failing"]:
+            if isinstance(fl, dict):
+                names.add(fl.get("invariant") or fl.get("clause"))
+            else:
+                names.add(fl[0])
+        invs = ["Inv_" + n for n in sorted(x for x in names if x)]
+        print(f"(engine {engine}: re-validating the recorded events; re-execution of the history is only available for the SD engine)")
+    out = tlc.validate_traces(tf, module, invs, wd, shards=1)
     for v in out["violations"]:
         print("still failing:", v)
     if out["violations"]:
